@@ -5,6 +5,8 @@ import (
 	"reflect"
 	"sort"
 	"strings"
+
+	"github.com/Oudwins/zog/parsers/zjson"
 )
 
 // toMap presents a fully populated destination value as the plain Go data it would be decoded
@@ -78,6 +80,7 @@ func NewModesCase(g *Gen, id int) (*Case, *Case, string) {
 	rec := &Recorder{CtxKeys: ctxProbe}
 	t := TypeOf(n)
 	val := g.DestValue(n, t, true)
+	primeJSON := n.Kind == KStruct && g.R.Fork(0x9507).P(35)
 	mk := func(validate bool, cid int) *Case {
 		c := &Case{ID: cid, Validate: validate, Schema: n, Collide: hasIssuePath(n), Shape: Shape(n), PoolMode: "recycled", TypesOK: true, CtxOK: true}
 		schema := Build(rec, n, validate)
@@ -93,6 +96,10 @@ func NewModesCase(g *Gen, id int) (*Case, *Case, string) {
 		}
 		c.Dest0 = CoqDval(dest0, n)
 		c.dest0v = dest0
+		if !validate && primeJSON {
+			// the schema object's first use is a JSON request (keys by json tag): nothing of that front end may stay with it
+			Exec(schema, false, zjson.Decode(strings.NewReader(`{"zz_unknown":1}`)), copyDest(t, reflect.Zero(t)), &Recorder{})
+		}
 		dest := copyDest(t, dest0)
 		c.Obs = Exec(schema, validate, data, dest, rec)
 		c.Known = false
